@@ -5,12 +5,14 @@
 export GOFLAGS=-mod=mod GOPROXY=off
 unset GOTOOLCHAIN GOSUMDB
 ROOT=$(cd "$(dirname "$0")" && pwd)
+replay="$3"
+case "$replay" in ""|/*) ;; *) replay="$(pwd)/$replay" ;; esac
 export VERIF_ROOT="$ROOT"
 cd "$ROOT/harness" || exit 2
 mkdir -p "$ROOT/bin"
 go build -o "$ROOT/bin/vcheck" ./cmd/vcheck || { echo "cannot build the driver" >&2; exit 2; }
 id="$1"; mode="${2:-quick}"
 case "$mode" in
-  replay) exec "$ROOT/bin/vcheck" -prop "$id" -replay "$3" ;;
+  replay) exec "$ROOT/bin/vcheck" -prop "$id" -replay "$replay" ;;
   *)      exec "$ROOT/bin/vcheck" -prop "$id" -tier "$mode" ;;
 esac
